@@ -161,6 +161,7 @@ structure AClosed (P : Eff → Prop) : Prop extends CClosed P where
       P { e with ps := { e.ps with late := e.ps.late ++ [(pid, hook)], lateAtt := hook :: e.ps.lateAtt } }
   hookEarly : ∀ e id hook, P e → P { e with ps := { e.ps with hookOf := e.ps.hookOf ++ [(id, hook)] } }
   level : ∀ e l, P e → P { e with ps := { e.ps with level := l } }
+  hops : ∀ e h, P e → P { e with ps := { e.ps with hopsOf := h } }
 
 /-- … and that does not look at log entries other than `finish` -/
 structure Closed (P : Eff → Prop) : Prop extends AClosed P where
@@ -280,6 +281,11 @@ theorem runAct_aclosed {P : Eff → Prop} (hc : AClosed P) (now : Nat) (e : Eff)
       · exact hc.hookEarly _ _ _ h
     · exact h
   | metric x abs v => exact hc.level _ _ h
+  | relay tgt kind delay limit daemon =>
+    simp only [runAct]
+    split
+    · exact hc.hops _ _ (hc.push _ _ _ _ rfl h)
+    · exact h
 
 theorem runAct_closed {P : Eff → Prop} (hc : Closed P) (now : Nat) (e : Eff) (a : Act) (h : P e) :
     P (runAct now e a) := runAct_aclosed hc.toAClosed now e a h
@@ -314,6 +320,7 @@ theorem closed_and {P Q : Eff → Prop} (hp : Closed P) (hq : Closed Q) : Closed
   hookLate := fun e pid hook h => ⟨hp.hookLate e pid hook h.1, hq.hookLate e pid hook h.2⟩
   hookEarly := fun e id hook h => ⟨hp.hookEarly e id hook h.1, hq.hookEarly e id hook h.2⟩
   level := fun e l h => ⟨hp.level e l h.1, hq.level e l h.2⟩
+  hops := fun e l h => ⟨hp.hops e l h.1, hq.hops e l h.2⟩
   obs := fun e o ho h => ⟨hp.obs e o ho h.1, hq.obs e o ho h.2⟩
 
 end HappyModel.C01
